@@ -140,7 +140,7 @@ package unmarshal
 //@ func (*pushRequestDec).decodeStreamValues [C03]
 //@   requires bufOK(p)
 //@   modifies p.TsNs, p.String, p.Value, p.Types
-//@   ensures bufOK(p)
+//@   ensures result == nil ==> bufOK(p)
 //@ func (*pushRequestDec).decodeStreamValues$1 [C03]
 //@   requires bufOK(p)
 //@   modifies p.TsNs, p.String, p.Value, p.Types
@@ -149,7 +149,7 @@ package unmarshal
 //@ func (*pushRequestDec).decodeStreamEntries [C03]
 //@   requires bufOK(p)
 //@   modifies p.TsNs, p.String, p.Value, p.Types
-//@   ensures bufOK(p)
+//@   ensures result == nil ==> bufOK(p)
 //@ func (*pushRequestDec).decodeStreamEntries$1 [C03]
 //@   requires bufOK(p)
 //@   modifies p.TsNs, p.String, p.Value, p.Types
@@ -164,7 +164,7 @@ package unmarshal
 //@   requires bufOK(p)
 //@   requires own-labels: len(p.Labels) == 0 && len(p.TsNs) == 0
 //@   modifies p.TsNs, p.String, p.Value, p.Types, p.Labels
-//@   ensures bufOK(p)
+//@   ensures result == nil ==> bufOK(p)
 //@ func (*pushRequestDec).decodeStream$1 [C03]
 //@   requires bufOK(p)
 //@   modifies p.TsNs, p.String, p.Value, p.Types, p.Labels
